@@ -35,29 +35,29 @@ for key in sorted(groups, key=pos):
     rows.append(f"| {', '.join(g['props'])} | {g['status']} | {('`'+g['commit']+'` '+subj) if g['commit'] else '—'} | {what} | {g['n']} |")
 put('FINDINGS', '\n'.join(rows))
 
-# ---- seeded changes
-rows = ['| property | # | files touched | own check, quick tier | other checks that also fire |', '|---|---|---|---|---|']
+# ---- seeded changes (round 1: seeded/<id>/meta.json, round 2: seeded/<id>/round2/meta.json)
+rows = ['| property | round | # | files touched | own check, quick tier | other checks that also fire |', '|---|---|---|---|---|---|']
 tot = det = 0
+per_round = {1: [0, 0], 2: [0, 0]}
 for pid in sorted(os.listdir('/verif/seeded')):
-    mp = f'/verif/seeded/{pid}/meta.json'
-    if not os.path.exists(mp): continue
-    m = json.load(open(mp))
-    for mu in m['mutations']:
-        r = mu['results']
-        own = r.get(pid, {})
-        tot += 1
-        if own.get('detected'):
-            cell = 'detected'; det += 1
-        elif r.get(pid + ':thorough', {}).get('detected'):
-            cell = 'missed by quick, **detected by the thorough tier**'; det += 1
-        else:
-            others_det = [c for c, v in r.items() if c != pid and not c.endswith(':thorough') and isinstance(v, dict) and v.get('detected')]
-            cell = 'not detected' + (f' (caught by {", ".join(others_det)}, where the behaviour belongs)' if others_det else '')
-            if others_det: det += 1
-        others = [c for c, v in r.items() if c != pid and not c.endswith(':thorough') and isinstance(v, dict) and v.get('detected')]
-        rows.append(f"| {pid} | {mu['n']} | {', '.join('`'+f+'`' for f in mu.get('files', []))} | {cell} | {', '.join(others) or '—'} |")
+    for rnd, mp in ((1, f'/verif/seeded/{pid}/meta.json'), (2, f'/verif/seeded/{pid}/round2/meta.json')):
+        if not os.path.exists(mp): continue
+        m = json.load(open(mp))
+        for mu in m['mutations']:
+            r = mu['results']
+            own = r.get(pid, {})
+            tot += 1; per_round[rnd][1] += 1
+            others = [c for c, v in r.items() if c != pid and not c.endswith(':thorough') and isinstance(v, dict) and v.get('detected')]
+            if own.get('detected'):
+                cell = 'detected'; det += 1; per_round[rnd][0] += 1
+            elif r.get(pid + ':thorough', {}).get('detected'):
+                cell = 'missed by quick, **detected by the thorough tier**'; det += 1; per_round[rnd][0] += 1
+            else:
+                cell = 'not detected' + (f' (caught by {", ".join(others)}, where the behaviour belongs)' if others else '')
+                if others: det += 1; per_round[rnd][0] += 1
+            rows.append(f"| {pid} | {rnd} | {mu['n']} | {', '.join('`'+f+'`' for f in mu.get('files', []))} | {cell} | {', '.join(others) or '—'} |")
 rows.append('')
-rows.append(f'{det} of {tot} seeded changes are detected by the final checks.')
+rows.append(f'{det} of {tot} seeded changes are detected by the final checks (round 1: {per_round[1][0]} of {per_round[1][1]}, round 2: {per_round[2][0]} of {per_round[2][1]}).')
 put('SEEDED', '\n'.join(rows))
 # ---- costs
 tp = '/verif/timings.json'
